@@ -47,7 +47,11 @@ var startStates = []startState{
 	{Name: "directory-exists", Prepare: func(s string) string { d := filepath.Join(s, "store"); _ = os.MkdirAll(d, 0o755); return d }},
 	{Name: "directory-missing", Prepare: func(s string) string { return filepath.Join(s, "store") }, Missing: true},
 	{Name: "nested-directory-missing", Prepare: func(s string) string { return filepath.Join(s, "n1", "n2", "store") }, Missing: true},
-	{Name: "path-is-a-file", Prepare: func(s string) string { f := filepath.Join(s, "store"); _ = os.WriteFile(f, []byte("i am a file"), 0o644); return f }, IsFile: true},
+	{Name: "path-is-a-file", Prepare: func(s string) string {
+		f := filepath.Join(s, "store")
+		_ = os.WriteFile(f, []byte("i am a file"), 0o644)
+		return f
+	}, IsFile: true},
 	{Name: "directory-name-with-spaces-and-unicode", Prepare: func(s string) string { d := filepath.Join(s, "st ore é✓"); _ = os.MkdirAll(d, 0o755); return d }},
 	{Name: "symlink-to-directory", Prepare: func(s string) string {
 		real := filepath.Join(s, "real")
@@ -56,7 +60,11 @@ var startStates = []startState{
 		_ = os.Symlink(real, l)
 		return l
 	}, Symlink: true},
-	{Name: "path-with-dot-segments", Prepare: func(s string) string { d := filepath.Join(s, "store"); _ = os.MkdirAll(d, 0o755); return s + "/store/../store/." }},
+	{Name: "path-with-dot-segments", Prepare: func(s string) string {
+		d := filepath.Join(s, "store")
+		_ = os.MkdirAll(d, 0o755)
+		return s + "/store/../store/."
+	}},
 }
 
 // world is the reference model.
@@ -338,7 +346,9 @@ func collisions(c *engine.Ctx) {
 			for _, nc := range []bool{false, true} {
 				i, j, nc := i, j, nc
 				h := []op{{Kind: "store", Doc: "d1", ID: collisionIDs[i]}, {Kind: "store", Doc: "d2", ID: collisionIDs[j], NoClobber: nc}, {Kind: "retrieve", ID: collisionIDs[i]}, {Kind: "retrieve", ID: collisionIDs[j]}}
-				c.Case(func() any { return map[string]any{"first": collisionIDs[i], "second": collisionIDs[j], "noClobber": nc} }, func(t *engine.T) *engine.Violation {
+				c.Case(func() any {
+					return map[string]any{"first": collisionIDs[i], "second": collisionIDs[j], "noClobber": nc}
+				}, func(t *engine.T) *engine.Violation {
 					if v := runHistory(t, st, h, 0, nil); v != nil {
 						return v
 					}
@@ -398,7 +408,9 @@ func faults(c *engine.Ctx) {
 			for k := 0; k < nsteps; k++ {
 				for _, fe := range errs {
 					k, fe := k, fe
-					c.Case(func() any { return map[string]any{"start": st.Name, "history": fmt.Sprint(h), "fault-step": k, "errno": fe.Error()} }, func(t *engine.T) *engine.Violation {
+					c.Case(func() any {
+						return map[string]any{"start": st.Name, "history": fmt.Sprint(h), "fault-step": k, "errno": fe.Error()}
+					}, func(t *engine.T) *engine.Violation {
 						if v := runHistory(t, st, h, k, fe); v != nil {
 							return v
 						}
